@@ -67,6 +67,10 @@ pub enum Probe {
     ContextNew { bps: usize, ch: usize },
     /// Context fill: declared bps, bytes per sample used in the call (0 = integer fill), number of values
     ContextFill { bps: usize, ch: usize, len: usize, bytes_per_sample: usize },
+    /// a byte fill of `len` raw bytes whose bytes-per-sample argument is `width` (values no sample format
+    /// has: 0, 5.., wrap-around values), into target 0 = FrameBuf, 1 = Context, 2 = the pair, 3 = a stream
+    /// encode (single thread), 4 = a stream encode (multi-thread); 16-bit stereo is declared
+    ByteWidth { target: u8, width: usize, len: usize },
 }
 
 #[derive(Clone, Copy, Debug, PartialEq, Eq)]
@@ -198,6 +202,13 @@ pub fn expectation(p: &Probe) -> Expect {
             // not one of the entry points the statement names (it returns no Result): recorded only
             let _ = (bps, ch);
             Expect::NoPanic
+        }
+        Probe::ByteWidth { width, len, .. } => {
+            if *len == 0 || (1..=4).contains(width) {
+                Expect::NoPanic
+            } else {
+                Expect::MustErr
+            }
         }
         Probe::ContextFill { bps, ch, len, bytes_per_sample } => {
             if *len == 0 {
@@ -385,6 +396,42 @@ pub fn execute(p: &Probe) -> Outcome {
                 let _ = Context::new(*bps, *ch);
                 Ok(())
             }
+            Probe::ByteWidth { target, width, len } => {
+                let bytes: Vec<u8> = (0..*len).map(|i| (i * 7) as u8 & 0x3F).collect();
+                match target {
+                    0 => FrameBuf::with_size(2, 64).map_err(|e| format!("setup: {e:?}"))?.fill_le_bytes(&bytes, *width).map_err(|e| format!("{e:?}")),
+                    1 => Context::new(16, 2).fill_le_bytes(&bytes, *width).map_err(|e| format!("{e:?}")),
+                    2 => (FrameBuf::with_size(2, 64).map_err(|e| format!("setup: {e:?}"))?, Context::new(16, 2)).fill_le_bytes(&bytes, *width).map_err(|e| format!("{e:?}")),
+                    _ => {
+                        struct RawWidth {
+                            bytes: Vec<u8>,
+                            width: usize,
+                            reads: usize,
+                        }
+                        impl Source for RawWidth {
+                            fn channels(&self) -> usize {
+                                2
+                            }
+                            fn bits_per_sample(&self) -> usize {
+                                16
+                            }
+                            fn sample_rate(&self) -> usize {
+                                44100
+                            }
+                            fn read_samples<F: Fill>(&mut self, _block_size: usize, dest: &mut F) -> Result<usize, SourceError> {
+                                self.reads += 1;
+                                if self.reads > 2 {
+                                    dest.fill_le_bytes(&[], 2)?;
+                                    return Ok(0);
+                                }
+                                dest.fill_le_bytes(&self.bytes, self.width)?;
+                                Ok(self.bytes.len() / 4)
+                            }
+                        }
+                        flacenc::encode_with_fixed_block_size(&cfg(*target == 4), RawWidth { bytes, width: *width, reads: 0 }, 64).map(|_| ()).map_err(|e| format!("{e:?}"))
+                    }
+                }
+            }
             Probe::ContextFill { bps, ch, len, bytes_per_sample } => {
                 let mut ctx = Context::new(*bps, *ch);
                 let data = ramp(*len, 8);
@@ -421,6 +468,13 @@ fn kind(p: &Probe) -> &'static str {
         Probe::FrameBufResized { .. } => "encode_fixed_size_frame(resized FrameBuf)",
         Probe::ContextNew { .. } => "Context::new",
         Probe::ContextFill { .. } => "Context::fill",
+        Probe::ByteWidth { target, .. } => match target {
+            0 => "FrameBuf::fill_le_bytes(bytes-per-sample no format has)",
+            1 => "Context::fill_le_bytes(bytes-per-sample no format has)",
+            2 => "(FrameBuf, Context)::fill_le_bytes(bytes-per-sample no format has)",
+            3 => "encode_with_fixed_block_size(single-thread, bytes-per-sample no format has)",
+            _ => "encode_with_fixed_block_size(multi-thread, bytes-per-sample no format has)",
+        },
     }
 }
 
@@ -625,6 +679,13 @@ pub fn probes() -> Vec<Probe> {
                         v.push(Probe::FrameBufResized { ch, prefill, new_size, fill, bytes_per_sample });
                     }
                 }
+            }
+        }
+    }
+    for target in 0..=4u8 {
+        for width in [0usize, 5, 6, 8, 16, 255, 256, 1 << 32, (1 << 32) + 2, usize::MAX / 2 + 2, usize::MAX] {
+            for len in [0usize, 1, 4, 24, 240, 256, 257] {
+                v.push(Probe::ByteWidth { target, width, len });
             }
         }
     }
